@@ -4,11 +4,24 @@ open Tealer Tealer.Proto
 
 def emit (out : IO.FS.Stream) (s : String) : IO Unit := out.putStrLn s
 
+def exitKind (o : Option Op) : String :=
+  match o with
+  | some (.callsub l) => "callsub:" ++ pencode l
+  | some .retsub => "retsub"
+  | some (.bz l) => "bz:" ++ pencode l
+  | some (.bnz l) => "bnz:" ++ pencode l
+  | some (.b l) => "b:" ++ pencode l
+  | some (.switch _) => "switch"
+  | some (.match_ _) => "match"
+  | some .err => "err"
+  | some .ret => "return"
+  | _ => "-"
+
 def renderTeal (out : IO.FS.Stream) (t : Teal) : IO Unit := do
   for b in t.allBlocks do
     let first := (b.ins.head?.map (·.line)).getD 0
     let last := (b.ins.getLast?.map (·.line)).getD 0
-    emit out s!"block {b.idx} live={if t.live.contains b.idx then 1 else 0} sub={pencode (b.sub.getD "-")} lines={first}-{last} n={b.ins.length} next={natList b.next} prev={natList b.prev}"
+    emit out s!"block {b.idx} live={if t.live.contains b.idx then 1 else 0} sub={pencode (b.sub.getD "-")} lines={first}-{last} n={b.ins.length} next={natList b.next} prev={natList b.prev} exit={exitKind (b.ins.getLast?.map (·.op))}"
   for s in t.main :: t.subs do
     emit out s!"sub {pencode s.name} entry={s.entry} blocks={natList s.blocks} exits={natList s.exits} callers={natList s.callers} retpoints={natList s.retPoints}"
   emit out ("intcs " ++ (match t.intcs with | some [] => "none" | some cs => natList cs | none => "none"))
@@ -18,7 +31,7 @@ def renderTeal (out : IO.FS.Stream) (t : Teal) : IO Unit := do
 def renderFunction (out : IO.FS.Stream) (f : Function) : IO Unit := do
   emit out s!"fentry {f.entry}"
   for b in f.blocks do
-    emit out s!"fblock {b.key} idx={b.idx} sub={pencode b.sub} n={b.ins.length} next={natList b.next} prev={natList b.prev} leaf={if b.isLeaf then 1 else 0} abs={if accessedUsingAbsoluteIndex f.intcs b then 1 else 0} exit={match b.exitOp with | some (.callsub l) => "callsub:" ++ pencode l | some .retsub => "retsub" | _ => "-"}"
+    emit out s!"fblock {b.key} idx={b.idx} sub={pencode b.sub} n={b.ins.length} next={natList b.next} prev={natList b.prev} leaf={if b.isLeaf then 1 else 0} abs={if accessedUsingAbsoluteIndex f.intcs b then 1 else 0} exit={exitKind b.exitOp} lines={(b.ins.head?.map (·.line)).getD 0}-{(b.ins.getLast?.map (·.line)).getD 0}"
   for s in f.main :: f.subs do
     emit out s!"fsub {pencode s.name} entry={s.entry} blocks={natList s.blocks} retsubs={natList s.retsubs} callers={natList s.callers} retpoints={natList s.retPoints}"
 
